@@ -29,7 +29,11 @@ type sink struct {
 	rs []report.SessReport
 }
 
-func (s *sink) NotifySessReport(r report.SessReport) { s.mu.Lock(); s.rs = append(s.rs, r); s.mu.Unlock() }
+func (s *sink) NotifySessReport(r report.SessReport) {
+	s.mu.Lock()
+	s.rs = append(s.rs, r)
+	s.mu.Unlock()
+}
 func (s *sink) PopBufPkt(uint64, uint16) ([]byte, bool) { return nil, false }
 func (s *sink) take() []report.SessReport {
 	s.mu.Lock()
